@@ -711,6 +711,9 @@ func (c *Ctx) absMapValue(st *State, mo *MapObj, kt *Term, et types.Type) Value 
 			st.assume(c.rangeFact(v, et))
 			return v
 		}
+		id := App("mapVal."+mo.Tag, IntSort, kt)
+		st.assume(Cmp(">=", id, IntC(0), true))
+		return c.strOfID(st, id)
 	case *types.Pointer:
 		s := App("mapVal."+mo.Tag, IntSort, kt)
 		return PtrV{Sym: s, Typ: u.Elem()}
